@@ -12,7 +12,6 @@ import (
 	"fmt"
 	"os"
 	"path/filepath"
-	"strings"
 	"testing"
 
 	"github.com/fsnotify/fsnotify"
@@ -22,25 +21,11 @@ import (
 	"github.com/dadrus/heimdall/internal/zzverif/vf"
 )
 
-type c18FsEvent struct {
-	Kind string      `json:"e"` // set, notify, scan
-	F    int         `json:"f"`
-	W    c18.Content `json:"w,omitempty"`
-	Ops  []string    `json:"ops,omitempty"`
-}
-
-type c18FsCase struct {
-	NFiles int          `json:"n"`
-	Rej    []int        `json:"rej"`
-	Undel  []int        `json:"undel"`
-	Hist   []c18FsEvent `json:"hist"`
-}
-
 var c18Ops = map[string]fsnotify.Op{
 	"C": fsnotify.Create, "W": fsnotify.Write, "R": fsnotify.Remove, "N": fsnotify.Rename, "H": fsnotify.Chmod,
 }
 
-func c18FsRun(t *testing.T, base string, idx int, c c18FsCase) []c18.Step {
+func c18FsRun(t *testing.T, base string, idx int, c c18.FsCase) []c18.Step {
 	dir := filepath.Join(base, fmt.Sprintf("c%d", idx))
 	if err := os.Mkdir(dir, 0o700); err != nil {
 		t.Fatal(err)
@@ -70,7 +55,7 @@ func c18FsRun(t *testing.T, base string, idx int, c c18FsCase) []c18.Step {
 		return false, 0, 0, false
 	}, undel)
 
-	for cid := 0; cid < 16; cid++ {
+	for cid := 0; cid < 32; cid++ {
 		rec.Register(cid, c18.ValidBytes(cid, rej[cid]))
 	}
 
@@ -131,228 +116,6 @@ func c18FsRun(t *testing.T, base string, idx int, c c18FsCase) []c18.Step {
 	return steps
 }
 
-// ---- generator ----------------------------------------------------------------
-
-func c18GenContent(r *vf.Rand, ncid int) c18.Content {
-	switch x := r.Intn(100); {
-	case x < 50:
-		return c18.Content{Kind: c18.Valid, Cid: 1 + r.Intn(ncid)}
-	case x < 65:
-		return c18.Content{Kind: c18.Absent}
-	case x < 80:
-		return c18.Content{Kind: c18.Empty, Variant: r.Intn(c18.NumEmptyVariants())}
-	default:
-		return c18.Content{Kind: c18.Invalid, Variant: r.Intn(c18.NumInvalidVariants())}
-	}
-}
-
-func c18GenOps(r *vf.Rand) []string {
-	all := []string{"C", "W", "R", "N", "H"}
-
-	switch x := r.Intn(100); {
-	case x < 30:
-		return []string{"W"}
-	case x < 45:
-		return []string{"C"}
-	case x < 60:
-		return []string{"R"}
-	case x < 70:
-		return []string{"N"}
-	case x < 78:
-		return []string{"H"}
-	case x < 80:
-		return []string{}
-	default: // a combination
-		var ops []string
-
-		for _, o := range all {
-			if r.Chance(40) {
-				ops = append(ops, o)
-			}
-		}
-
-		if ops == nil {
-			ops = []string{}
-		}
-
-		return ops
-	}
-}
-
-func c18FsGen(r *vf.Rand) c18FsCase {
-	c := c18FsCase{NFiles: 1 + r.Intn(3), Rej: []int{}, Undel: []int{}}
-	ncid := 2 + r.Intn(4)
-
-	for cid := 1; cid <= ncid; cid++ {
-		if r.Chance(20) {
-			c.Rej = append(c.Rej, cid)
-		}
-	}
-
-	if r.Chance(8) {
-		c.Undel = append(c.Undel, r.Intn(c.NFiles))
-	}
-
-	present := make([]bool, c.NFiles)
-	n := 1 + r.Intn(30)
-	// orderly: every change is followed by the event inotify would deliver; chaotic: anything goes
-	orderly := r.Chance(40)
-
-	if r.Chance(25) { // some files exist before the provider starts
-		for f := 0; f < c.NFiles; f++ {
-			if r.Chance(70) {
-				w := c18GenContent(r, ncid)
-				c.Hist = append(c.Hist, c18FsEvent{Kind: "set", F: f, W: w})
-				present[f] = w.Kind != c18.Absent
-			}
-		}
-
-		c.Hist = append(c.Hist, c18FsEvent{Kind: "scan", F: c.NFiles})
-	}
-
-	for len(c.Hist) < n {
-		f := r.Intn(c.NFiles)
-
-		switch x := r.Intn(100); {
-		case x < 45:
-			w := c18GenContent(r, ncid)
-			c.Hist = append(c.Hist, c18FsEvent{Kind: "set", F: f, W: w})
-
-			if orderly || r.Chance(50) {
-				var ops []string
-
-				switch {
-				case w.Kind == c18.Absent && r.Chance(25):
-					ops = []string{"N"} // moved away
-				case w.Kind == c18.Absent:
-					ops = []string{"R"}
-				case !present[f]:
-					ops = []string{"C"}
-				default:
-					ops = []string{"W"}
-				}
-
-				if !(w.Kind == c18.Absent && !present[f]) {
-					c.Hist = append(c.Hist, c18FsEvent{Kind: "notify", F: f, Ops: ops})
-				}
-			}
-
-			present[f] = w.Kind != c18.Absent
-		case x < 95:
-			if orderly && r.Chance(70) {
-				c.Hist = append(c.Hist, c18FsEvent{Kind: "notify", F: f, Ops: []string{vf.Pick(r, []string{"W", "H", "C"})}})
-			} else {
-				c.Hist = append(c.Hist, c18FsEvent{Kind: "notify", F: f, Ops: c18GenOps(r)})
-			}
-		default:
-			c.Hist = append(c.Hist, c18FsEvent{Kind: "scan", F: c.NFiles})
-		}
-	}
-
-	return c
-}
-
-func c18FsCorpus() []c18FsCase {
-	v := func(c int) c18.Content { return c18.Content{Kind: c18.Valid, Cid: c} }
-	set := func(f int, w c18.Content) c18FsEvent { return c18FsEvent{Kind: "set", F: f, W: w} }
-	nt := func(f int, ops ...string) c18FsEvent { return c18FsEvent{Kind: "notify", F: f, Ops: ops} }
-	absent := c18.Content{Kind: c18.Absent}
-
-	return []c18FsCase{
-		// C18-F2: a rule file moved away (Rename is all inotify delivers) stays loaded
-		{NFiles: 1, Rej: []int{}, Undel: []int{}, Hist: []c18FsEvent{set(0, v(1)), nt(0, "C"), set(0, absent), nt(0, "N")}},
-		// C18-F4: a stale Remove processed after the file was re-created unloads an existing source
-		{NFiles: 1, Rej: []int{}, Undel: []int{}, Hist: []c18FsEvent{
-			set(0, v(1)), nt(0, "C"), set(0, absent), set(0, v(1)), nt(0, "C"), nt(0, "R"),
-		}},
-		// create, update, unchanged, invalid keeps, rejected keeps, emptied, re-created, removed
-		{NFiles: 2, Rej: []int{3}, Undel: []int{}, Hist: []c18FsEvent{
-			set(0, v(1)), nt(0, "C"), set(0, v(2)), nt(0, "W"), nt(0, "W"), nt(0, "H"),
-			set(0, c18.Content{Kind: c18.Invalid}), nt(0, "W"), set(0, v(3)), nt(0, "W"), nt(0, "W"),
-			set(0, c18.Content{Kind: c18.Empty}), nt(0, "W"), set(0, v(2)), nt(0, "W"), set(0, absent), nt(0, "R"),
-			set(1, v(4)), {Kind: "scan", F: 2},
-		}},
-		// initial load stops at the first file it cannot load
-		{NFiles: 3, Rej: []int{}, Undel: []int{}, Hist: []c18FsEvent{
-			set(0, v(1)), set(1, c18.Content{Kind: c18.Invalid, Variant: 2}), set(2, v(2)), {Kind: "scan", F: 3},
-			set(1, c18.Content{Kind: c18.Empty, Variant: 2}), {Kind: "scan", F: 3},
-		}},
-		// combined op bits: Remove|Write re-reads
-		{NFiles: 1, Rej: []int{}, Undel: []int{}, Hist: []c18FsEvent{set(0, v(1)), nt(0, "W"), nt(0, "R", "W"), nt(0, "N", "H")}},
-		// a deletion the processor refuses keeps the stored hash
-		{NFiles: 1, Rej: []int{}, Undel: []int{0}, Hist: []c18FsEvent{set(0, v(1)), nt(0, "W"), set(0, absent), nt(0, "R"), nt(0, "R")}},
-	}
-}
-
-func c18FsCoq(c c18FsCase, steps []c18.Step) string {
-	evs := make([]string, len(c.Hist))
-
-	for i, e := range c.Hist {
-		switch e.Kind {
-		case "set":
-			evs[i] = fmt.Sprintf("eS %d %s", e.F, e.W.Coq())
-		case "notify":
-			ops := make([]string, len(e.Ops))
-			for j, o := range e.Ops {
-				ops[j] = "o" + o
-			}
-
-			evs[i] = fmt.Sprintf("eN %d [%s]", e.F, strings.Join(ops, "; "))
-		default:
-			evs[i] = fmt.Sprintf("eSc %d", e.F)
-		}
-	}
-
-	return fmt.Sprintf("(fsc %d %s %s [%s] %s)", c.NFiles, c18.CoqInts(c.Rej), c18.CoqInts(c.Undel),
-		strings.Join(evs, "; "), vf.CoqListOf(steps, c18.Step.Coq))
-}
-
-func c18FsTags(c c18FsCase, steps []c18.Step) []string {
-	tags := map[string]bool{}
-
-	for i, e := range c.Hist {
-		tags["ev:"+e.Kind] = true
-
-		if e.Kind == "notify" {
-			switch {
-			case len(e.Ops) > 1:
-				tags["ops:combined"] = true
-			case len(e.Ops) == 1:
-				tags["ops:"+e.Ops[0]] = true
-			default:
-				tags["ops:none"] = true
-			}
-		}
-
-		if e.Kind == "set" {
-			tags["set:"+e.W.Kind] = true
-		}
-
-		for _, cl := range steps[i].Calls {
-			tags[fmt.Sprintf("call:%s:%v", cl.Kind, cl.Ok)] = true
-		}
-
-		if steps[i].Err && len(steps[i].Calls) == 0 {
-			tags["err:kept"] = true
-		}
-
-		if steps[i].Panic != "" {
-			tags["panic"] = true
-		}
-	}
-
-	if len(c.Undel) > 0 {
-		tags["undeletable"] = true
-	}
-
-	out := make([]string, 0, len(tags))
-	for k := range tags {
-		out = append(out, k)
-	}
-
-	return out
-}
-
 func TestVerifC18Fs(t *testing.T) {
 	w := vf.NewWriter()
 	defer w.Close()
@@ -362,23 +125,23 @@ func TestVerifC18Fs(t *testing.T) {
 	n := vf.N(400)
 	idx := 0
 
-	emit := func(stream string, c c18FsCase) {
+	emit := func(stream string, c c18.FsCase) {
 		if vf.Want(idx) {
 			steps := c18FsRun(t, base, idx, c)
 			w.Put(vf.Obs{
-				I: idx, Stream: stream, In: c, Out: steps, Coq: c18FsCoq(c, steps),
-				Nontrivial: c18.Nontrivial(steps), Tags: c18FsTags(c, steps),
+				I: idx, Stream: stream, In: c, Out: steps, Coq: c18.FsCoq(c, steps),
+				Nontrivial: c18.Nontrivial(steps), Tags: c18.FsTags(c, steps),
 			})
 		}
 
 		idx++
 	}
 
-	for _, c := range c18FsCorpus() {
+	for _, c := range append(c18.FsCorpus(), c18.LoadCorpus[c18.FsCase]("fs")...) {
 		emit("corpus", c)
 	}
 
 	for i := 0; i < n; i++ {
-		emit("generated", c18FsGen(root.Fork(uint64(i))))
+		emit("generated", c18.FsGen(root.Fork(uint64(i)), false))
 	}
 }
